@@ -472,9 +472,8 @@ pub fn run(run: &Run) {
     let eng = Engine::new(&scratch);
     // (mainnet is in the quick tier too: findings V and W sat there)
     let mut nets = vec![(NetID::Custom02, 0u128), (NetID::Custom08, 0), (NetID::Testnet, 0), (NetID::Mainnet, 0)];
-    if thorough {
-        nets.push((NetID::Custom02, 65536));
-    }
+    // with a fee multiplier: the proposer's failed attempts then include underpaying transactions, which are refused late
+    nets.push((NetID::Custom02, 65536));
     let mut total_parents = 0;
     for (net, fm) in nets {
         let (_w, rootn) = root(net, fm, true);
@@ -495,7 +494,7 @@ pub fn run(run: &Run) {
             }
         };
         bfs(&eng, vec![rootn], if thorough { 6 } else { 3 }, 200_000, &acts, &visit);
-        let parents: Vec<Node> = canonical_order(collected.into_inner()).into_iter().take(if thorough { 60 } else { 14 }).collect();
+        let parents: Vec<Node> = canonical_order(collected.into_inner()).into_iter().take(if thorough { 60 } else if fm > 0 { 5 } else { 14 }).collect();
         total_parents += parents.len();
         let mut ccfg = AlphaCfg::base();
         ccfg.per_denom = 2;
